@@ -48,6 +48,10 @@ def _states(variant: str):
             yield (z, e, False)
 
 
+CTX_IMPORTS: Dict[str, Dict[str, str]] = {}
+CTX_DEFS: set = set()
+
+
 class _Deviation(Exception):
     """The body leaves the recipe family in a way that is itself a defect."""
 
@@ -75,6 +79,22 @@ def _eval_fn(f: Func, spec_variant: str):
         if len(c.args) > 2 or c.keywords:
             raise _Deviation(f"`{norm(c, 60)}` restricts the search window (lo/hi/key): the documented boundary is "
                              f"defined over the whole list")
+    for c in walk_local(node):
+        if isinstance(c, ast.Compare) and any(isinstance(o, (ast.Is, ast.IsNot)) for o in c.ops) \
+                and not any(isinstance(x, ast.Constant) and x.value is None for x in [c.left] + c.comparators):
+            raise _Deviation(f"`{norm(c)}` compares integers by identity: equal positions are distinct objects beyond "
+                             f"the small-int cache (lists longer than 256 entries)")
+        if isinstance(c, (ast.Global, ast.Nonlocal)):
+            raise _Deviation(f"`{norm(c)}`: the result depends on state outside (list, probe)")
+    local_names = set(params) | {n_.id for n_ in walk_local(node) if isinstance(n_, ast.Name) and isinstance(n_.ctx, ast.Store)}
+    import builtins as _b
+    imported = set(CTX_IMPORTS.get(f.module, {}))
+    known_defs = set(CTX_DEFS)
+    for st_ in node.body:
+        for c in walk_local(st_):
+            if isinstance(c, ast.Name) and isinstance(c.ctx, ast.Load) and c.id not in local_names \
+                    and not hasattr(_b, c.id) and c.id not in imported and c.id not in known_defs:
+                raise _Deviation(f"`{c.id}` is module-level state: the result depends on more than (list, probe)")
     if deleg and not bis:
         raise _Outside("delegates to another helper")
     if len(bis) != 1:
@@ -206,6 +226,11 @@ def _eval_fn(f: Func, spec_variant: str):
 @rule("C18.R1", ["C18", "C01"], min_instances=5, design="3.18")
 def bisect_recipes(ctx):
     """Each find_* helper equals the closed-form boundary specification on every abstract state."""
+    CTX_IMPORTS.clear()
+    CTX_IMPORTS.update(ctx.prog.imports)
+    CTX_DEFS.clear()
+    CTX_DEFS.update(q for q, fn in ctx.prog.funcs.items() if fn.parent is None and fn.cls is None)
+    CTX_DEFS.update(ctx.prog.classes)
     for name, (variant, spec) in SPEC.items():
         f = ctx.prog.func(name, "C18.R1")
         key = f"{name} | recipe"
